@@ -20,7 +20,7 @@ RULE = ('(a) every raising call of random building histories on both topology fl
         'descriptor, model hash); non-trivial when the model was non-empty')
 REQUIRED = ['target:derived-id-collision', 'raising-calls', 'raising-calls:history', 'raising-calls:targeted', 'snapshots-compared', 'target:dup-name',
             'target:dup-id', 'target:bad-kw-position', 'target:bad-interface-position', 'target:facility-bad-tuple-position',
-            'target:unknown-model', 'target:subinterface-vlan', 'target:link-stale-end', 'target:component-if-id-collision', 'target:stale-service']
+            'target:unknown-model', 'target:subinterface-vlan', 'target:link-stale-end', 'target:component-if-id-collision', 'target:stale-service', 'retry:raised-again']
 ASSUMPTIONS = ['only argument rejections are injected (the statement is about rejected arguments); exceptions raised at arbitrary '
                'internal lines would demand a transaction mechanism the library does not promise',
                'the handle object the call was made on may be left changed (e.g. rename sets handle.name before validating); only '
@@ -81,6 +81,25 @@ def attempt(ctx, imp, topo, op, origin, flavour, store, hist=None):
                           {'flavour': flavour, 'store': store, 'op': op, 'exception': f'{type(e).__name__}: {str(e)[:200]}',
                            'diff': d[:8], 'leaked_classes': leaked, 'history': hist})
             return 'violation'
+        # a caller retrying the rejected call: refused or not, a raising second attempt leaves the model unchanged as well
+        try:
+            topogen.execute(topo, op)
+            ctx.count('retry:accepted-second-time')
+            return 'ok'
+        except topogen.Unresolved:
+            return 'raise'
+        except Exception as e2:
+            ctx.count('retry:raised-again')
+            after2 = whole(imp)
+            if after2 != before:
+                d = []
+                for g in sorted(set(before) | set(after2)):
+                    d += [f'[{g[:8]}] {x}' for x in canon.diff(before.get(g), after2.get(g))]
+                ctx.violation(classify(op, e2, d, flavour) + ':on-retry', 'a call that raises leaves the model observably unchanged '
+                              '(the same rejected call made a second time)',
+                              {'flavour': flavour, 'store': store, 'op': op, 'exception': f'{type(e2).__name__}: {str(e2)[:200]}',
+                               'diff': d[:8], 'history': hist})
+                return 'violation'
         return 'raise'
 
 
